@@ -12,17 +12,28 @@ Open Scope nat_scope.
    still compilable: ObserveBase) and compilations with apply(node_values, edge_values),
    the outputs of the implementation model are the outputs of the specification (functional update of the addressed
    paths of the unshared tree, nothing else). *)
-Definition C07_full_statement : Prop := forall d r ops h t, abs d h r = Some t ->
+Definition C07_full_statement (fixed : bool) : Prop := forall d r ops h t, abs d h r = Some t ->
+  snd (runI_gen fixed d (init_state h r) ops) = snd (runS d t ops).
+(* `fixed` = Values.fixed_D97: false = the code as it is (runI = runI_gen false): a variable declared by a bare integer casts
+   every value it is given to int; true = the repair fixes/fix_D97.diff (the dtype follows the value). *)
+
+(* the code as it is: the full statement for every history in which no compilation hands a non-integral value to an
+   integer-declared variable (decidable guard int_exact; vacuous once fixed_D97 = true) *)
+Theorem C07_partial : forall d r ops h t, abs d h r = Some t -> fixed_D97 = true \/ int_exact d t ops = true ->
   snd (runI d (init_state h r) ops) = snd (runS d t ops).
-
-Theorem C07_full : C07_full_statement.
 Proof. exact history_outputs. Qed.
-Print Assumptions C07_full.
+Print Assumptions C07_partial.
 
-(* together with the simulation of the states: `sim` = the current template denotes the specification's current tree and
-   every base template left behind by `c = c.update_template(...)` still denotes the tree it had (ObserveBase compiles them) *)
-Theorem C07_refines : forall d ops st ss, sim d st ss ->
-  sim d (fst (runI d st ops)) (fst (runS' d ss ops)) /\ snd (runI d st ops) = snd (runS' d ss ops).
+(* with the repair: no hypothesis *)
+Theorem C07_full_when_fixed : C07_full_statement true.
+Proof. exact history_outputs_fixed. Qed.
+Print Assumptions C07_full_when_fixed.
+
+(* the sharing refinement holds for both mechanisms: store-based implementation = tree specification with the same cast rule;
+   `sim` = the current template denotes the specification's current tree and every base template left behind by
+   `c = c.update_template(...)` still denotes the tree it had (ObserveBase compiles them) *)
+Theorem C07_refines : forall fx d ops st ss, sim d st ss ->
+  sim d (fst (runI_gen fx d st ops)) (fst (runS_gen fx d ss ops)) /\ snd (runI_gen fx d st ops) = snd (runS_gen fx d ss ops).
 Proof. exact history_refines. Qed.
 Print Assumptions C07_refines.
 
@@ -127,3 +138,31 @@ Example C07_base_untouched :
   probe (["c1"%string; "A"%string], "op"%string, "k"%string) (snd (runI 1 (init_state d27_heap 3) (base_ops ++ [Observe [] []]))) = 5%Z.
 Proof. vm_compute. auto. Qed.
 Print Assumptions C07_base_untouched.
+
+(* finding D97 (open until fix_D97 lands): `tau` is declared by the integer 10; update_var('A/op/tau', 25/2) compiles
+   A/op/tau = 12 (specification: 25/2); B keeps 10 *)
+Definition int_heap : heap :=
+  [OOp "op" ["d/dt * x = k*r + g + u"%string]
+       [("x"%string, Sc (mkq 1 4)); ("k"%string, ScI 10); ("r"%string, Sc (mkq 2 1)); ("g"%string, Sc (mkq 1 1)); ("u"%string, Sc (mkq 0 1))];
+   ONode [(0, [])];
+   OCirc [("A"%string, 1); ("B"%string, 1)] []].
+Definition int_ops : list hop := [UpdVar ["A"%string] "op" "k" (Sc (mkq 25 2)); Observe [] []].
+Definition probe_den (k : okey) (outs : list hout) : positive :=
+  match last outs ODone with
+  | OObs ns _ => match ol_get ns k with Some (Sc q) => Qden (this q) | _ => 1%positive end
+  | _ => 1%positive
+  end.
+Theorem C07_int_truncation_before_fix : ~ C07_full_statement false.
+Proof.
+  intros H. destruct (abs 0 int_heap 2) as [t|] eqn:E; [|vm_compute in E; discriminate].
+  specialize (H 0 2 int_ops int_heap t E). apply (f_equal (probe (["A"%string], "op"%string, "k"%string))) in H.
+  vm_compute in E. injection E as <-. vm_compute in H. discriminate.
+Qed.
+Print Assumptions C07_int_truncation_before_fix.
+Example C07_int_truncation_witness :
+  probe (["A"%string], "op"%string, "k"%string) (snd (runI_gen false 0 (init_state int_heap 2) int_ops)) = 12%Z /\
+  probe (["A"%string], "op"%string, "k"%string) (snd (runI_gen true 0 (init_state int_heap 2) int_ops)) = 25%Z /\
+  probe_den (["A"%string], "op"%string, "k"%string) (snd (runI_gen true 0 (init_state int_heap 2) int_ops)) = 2%positive /\
+  probe (["B"%string], "op"%string, "k"%string) (snd (runI_gen false 0 (init_state int_heap 2) int_ops)) = 10%Z.
+Proof. vm_compute. auto. Qed.
+Print Assumptions C07_int_truncation_witness.
